@@ -121,7 +121,7 @@ pub fn c13_socket_unit(thorough: bool) -> Unit {
     let configs: Vec<(u32, usize)> = vec![(1, 0), (3, 2), (3, 4), (3, 6), (50, 0), (50, 2), (2000, 0), (2000, 2)];
     let reps = if thorough { 40 } else { 8 };
     let dom = format!(
-        "the repository's own release binary with -s, guest = port write in a loop of {{1, 3, 50, 2000}} iterations ending normally or in a failing instruction a few instructions after the last message ({} guests x {} repetitions): the lines a loopback client receives until the connection ends must be exactly the message sequence of the in-process run, and the exit status must tell failure from success (OS scheduling sampled, guests enumerated)",
+        "the repository's own release binary with -s, guest = port write in a loop of {{1, 3, 50, 2000}} iterations ending normally or in a failing instruction a few instructions after the last message ({} guests x {} repetitions): every second repetition with -m as well: the lines a loopback client receives until the connection ends must be exactly the message sequence of the in-process run, and the exit status must tell failure from success (OS scheduling sampled, guests enumerated)",
         configs.len(),
         reps
     );
@@ -146,7 +146,9 @@ pub fn c13_socket_unit(thorough: bool) -> Unit {
         let path = scratch(&format!("sockstream{}", chunk));
         let _ = std::fs::write(&path, &file);
         for rep in 0..reps as u64 {
-            let (mut child, mut stream) = match spawn_with_socket(&bin, &path, &[], chunk * 64 + rep) {
+            // every second repetition also prints the messages (-m): what is printed must still be sent
+            let extra: &[&str] = if rep % 2 == 1 { &["-m"] } else { &[] };
+            let (mut child, mut stream) = match spawn_with_socket(&bin, &path, extra, chunk * 64 + rep) {
                 Ok(x) => x,
                 Err(m) => {
                     ctx.machinery(m);
